@@ -59,11 +59,20 @@ def _work(args):
         warnings.simplefilter('ignore')
         # (1) reproducibility under prior RNG states and earlier runs
         np.random.seed(1000 + k)
+        if k % 4 == 1:
+            # the SAME hits under per-call parameters differing in a few leaves, processed BEFORE the judged run: a
+            # result keyed on the data alone and kept across runs makes the judged run differ from the fresh-process
+            # reference (scenes with small k are re-processed in fresh interpreters below)
+            scenes.run_scene(rows, pipecheck.twin_prms(random.Random(f'{seed}:c09twin:{k}'), prms, k // 2))
         base = scenes.run_scene(rows, prms)
         d0 = scene_digest(base)
         np.random.seed(7 * k + 3); np.random.random(17)
         other_rows, other_prms, _ = pick_scene(seed, k + 100000)
         scenes.run_scene(other_rows, other_prms)                  # something else processed in between
+        if k % 2 == 1:
+            # ... and the SAME hits under per-call parameters differing in a few leaves (a result keyed on the data
+            # alone and kept across runs would make the next run depend on this one)
+            scenes.run_scene(rows, pipecheck.twin_prms(random.Random(f'{seed}:c09twin:{k}'), prms, k // 2))
         amp.demo() if k % 7 == 0 else None
         d1 = scene_digest(scenes.run_scene(rows, prms))
         np.random.seed(None)
@@ -150,10 +159,10 @@ def child(seed, ks):
 def run(chk):
     quick = chk.tier == 'quick'
     n = 160 if quick else 2400
-    n_proc_scenes = 16 if quick else 400
+    n_proc_scenes = 40 if quick else 400
     hashseeds = [0, 12345] if quick else [0, 1, 12345, 987654321]
     chk.rule = (f'{n} scenes (families split/synth/chain/multi/bundle/degenerate) each processed 3 times in-process under '
-                'different prior numpy RNG states and after other runs; RNG-state digest before/after every API operation incl. '
+                'different prior numpy RNG states and after other runs (every second scene also after a run on the same hits with a few parameter leaves changed); RNG-state digest before/after every API operation incl. '
                 f'canonical_demo_data and tmp_seed with a raising body; {n_proc_scenes} scenes re-processed in '
                 f'{len(hashseeds)} fresh processes with PYTHONHASHSEED in {hashseeds}; non-trivial = the mixture model was engaged; '
                 'distinct by result digest')
